@@ -94,6 +94,16 @@ func jsonOrPanic(i interface{}) string {
 	}
 }
 
+// jsonOrError is used to format error messages, where panicking
+// because a value cannot be serialized is not an option
+func jsonOrError(i interface{}) string {
+	if b, err := json.Marshal(i); err != nil {
+		return fmt.Sprintf("<%s>", err)
+	} else {
+		return string(b)
+	}
+}
+
 func pJsonOrPanic(i interface{}) string {
 	if b, err := json.MarshalIndent(i, "", "  "); err != nil {
 		panic(err)
